@@ -345,6 +345,7 @@ func newH2Peer(env *core.Env, name string, cfg *h2Endpoint, conn net.Conn) *h2Pe
 		gotReqHeaders: map[uint32]bool{}, unreturned: map[uint32]int64{}}
 	p.cond = sync.NewCond(&p.mu)
 	p.enc = hpack.NewEncoder(&p.encBuf)
+	p.enc.SetMaxDynamicTableSizeLimit(1 << 20) // follow whatever table size the peer announces, also above the 4096 default
 	p.dec = hpack.NewDecoder(4096, nil)
 	p.fr.SetMaxReadFrameSize(1 << 24)
 	p.fr.AllowIllegalWrites = true
